@@ -8,7 +8,7 @@ if [ ! -d $W ]; then git -C /repo worktree add -q --detach $W HEAD || exit 2; fi
 git -C $W checkout -q -- .
 mkdir -p $W/.b && cd $W/.b
 cmake -G Ninja $W -DCMAKE_BUILD_TYPE=Release -DBUILD_TESTING=ON -DCMAKE_OUTPUT_DIRECTORY=$W/.b/bin > $LOG/cmake.log 2>&1
-build() { nice ninja -j10 all SvtAv1ApiTests > $LOG/build_$1.log 2>&1; echo $?; }
+build() { nice ninja -j10 SvtAv1EncApp SvtAv1DecApp SvtAv1ApiTests > $LOG/build_$1.log 2>&1; echo $?; }
 apitests() { LD_LIBRARY_PATH=$W/.b/bin $W/.b/bin/SvtAv1ApiTests --gtest_output=xml:$LOG/api_$1.xml > /dev/null 2>&1; python3 - $LOG/api_$1.xml <<'PY'
 import sys, json, xml.etree.ElementTree as ET
 passed=set()
